@@ -74,7 +74,8 @@ func c32Scenario(name string, script []string, failfast []bool, withClose bool, 
 		pw := newPickerWrapper()
 		led := &c32Ledger{picks: map[int][]int{}, startGen: map[int]int{}, dones: map[string]int{}, lastTry: map[int]int{}}
 		readyAC := &addrConn{state: connectivity.Ready, transport: &c32Transport{id: 1}}
-		notReadyAC := &addrConn{state: connectivity.Connecting}
+		// connected but not READY (e.g. health check still failing): the transport is set although the state is not READY
+		notReadyAC := &addrConn{state: connectivity.TransientFailure, transport: &c32Transport{id: 2}}
 		readySC := &acBalancerWrapper{ac: readyAC}
 		notReadySC := &acBalancerWrapper{ac: notReadyAC}
 		// ccMu plays the role of ClientConn.mu: the channel publishes a picker
